@@ -82,13 +82,13 @@ theorem flatT_placeholder (tbl : List Str) {i : Nat} (h : i < tbl.length) (rest 
 /-- the escape token of character number `v` -/
 def escToken (v : Nat) : Str := STX :: natToDec v ++ [ETX]
 
-theorem escTok_natToDec {L : Char → Bool} {v : Nat} (hv : v < 0x110000) (hL : L (Char.ofNat v) = false) (rest : Str) :
+theorem escTok_natToDec {L : Char → Bool} {v : Nat} (hv : v < 0x110000) (hL : tokChar L (Char.ofNat v) = true) (rest : Str) :
     escTok L (natToDec v ++ ETX :: rest) = true := by
   unfold escTok
   rw [phAt_digits (natToDec_length_pos v) (natToDec_digits v)]
   simp [hv, hL]
 
-theorem ok_escToken {L : Char → Bool} (n : Nat) {v : Nat} (hv : v < 0x110000) (hL : L (Char.ofNat v) = false) :
+theorem ok_escToken {L : Char → Bool} (n : Nat) {v : Nat} (hv : v < 0x110000) (hL : tokChar L (Char.ofNat v) = true) :
     ok L n (escToken v) = true := by
   rw [escToken, List.cons_append, ok_cons]
   refine ⟨by decide, Or.inr (Or.inl ?_), ?_⟩
